@@ -106,6 +106,7 @@ PROGRAMS = {
     "circle-default": '10 HCIRCLE(X,Y),R,,INT(H)/10\n20 HCIRCLE(159,95),20\n30 HCIRCLE(1,2),3,,0.5,0.1,0.2\n',
     "plain": '10 A=1\n20 B=A+2\n',
     "many-vars": '10 A=1:B=2:C=3:D=4:E=5:F$="X":G$="Y":H$="Z"\n20 PRINT A;B;C;D;E;F$;G$;H$\n30 IF JOYSTK(0)>BUTTON(1) THEN PRINT INKEY$\n',
+    "same-base-arrays": '10 N$(1)="X":N(1)=2:Q$(2)="Y":Q(2)=3\n20 PRINT N$(1);N(1);Q$(2);Q(2):V$="A":V=1:V(1)=2:V$(1)="B"\n',
     "ifs": '10 IF A=1 THEN 100 ELSE IF A=2 THEN 200 ELSE 300\n20 ON A GOSUB 100,200,300\n100 RETURN\n200 RETURN\n300 RETURN\n',
 }
 OPTSETS = {
@@ -120,14 +121,37 @@ def alphabet():
     for pn in sorted(PROGRAMS):
         for on in sorted(OPTSETS):
             a.append(("conv", pn, on))
-    for t in ("hrs", "max", "pix", "mge", "vef"):
+    # two inputs per decoder that differ in palette and pixel data (a decoder that remembers anything of the
+    # first picture shows it on the second)
+    for t in ("hrs", "max", "pix", "mge", "vef", "rat", "cm3"):
         a.append(("dec", t, ""))
+        a.append(("dec", t, "b"))
     return a
 
 
-def _dec_sample(t):
+def _dec_sample(t, variant=""):
     from vf.img import cases as C, formats as F
     pal = C.palette(5)
+    if variant == "b":
+        pal = list(reversed(C.palette(41, step=7)))
+        if t == "hrs":
+            return ["-w", "8", "-r", "4"], F.hrs_file(pal, C.body_lin(16, 3, 1))
+        if t == "max":
+            return ["-w", "16", "-rb3"], F.max_file(bytes(reversed(C.body_lin(8, 5, 1))))
+        if t == "pix":
+            return [], bytes(reversed(C.body_lin(32, 7, 1)))
+        if t == "mge":
+            return [], F.mge_raw_file(pal, bytes((i // 41) & 255 for i in range(32000)), rgb_flag=1)
+        if t == "vef":
+            return [], F.vef_raw_file(pal, C.body_lin(32000, 3, 1), 0)
+        if t == "rat":
+            return [], F.rat_file(pal, bytes((i // 7) & 0x77 for i in range(199 * 160)), core.Chooser(()))
+        if t == "cm3":
+            return [], F.cm3_raw_file(pal, bytes((i // 5) & 0x7F for i in range(192 * 160)))
+    if t == "rat":
+        return [], F.rat_file(pal, bytes((i // 3) & 0x77 for i in range(199 * 160)), core.Chooser(()))
+    if t == "cm3":
+        return [], F.cm3_raw_file(pal, bytes((i // 9) & 0x7F for i in range(192 * 160)))
     if t == "hrs":
         return ["-w", "8", "-r", "4"], F.hrs_file(pal, C.body_lin(16, 3, 1))
     if t == "max":
@@ -146,7 +170,7 @@ def perform(op, scratch):
         r = tool.convert(PROGRAMS[a], **OPTSETS[b])
         return (r.kind + "|" + (r.text or "") + "|" + (r.detail if r.kind.startswith("refused") else "")).encode("latin-1", "replace")
     from vf.img import tools as T
-    opts, data = _dec_sample(a)
+    opts, data = _dec_sample(a, b)
     oc = T.run_tool(a, data, opts, scratch)
     return oc.status.encode() + b"|" + (oc.out or b"")
 
